@@ -121,7 +121,7 @@ package minter
 //@ history balAtFetch(a *accounts.Accounts, c types.CoinID, o types.Address) int
 //@ spec moveOf(it frozenfunds.Item) int = len(it.MoveToCandidate) > 0 ? it.MoveToCandidate[0] : 0
 //@ func (*Blockchain).BeginBlock
-//@   serves C16 C01 C07
+//@   serves C16 C01 C07 C19
 //@   splitreturns
 //@   let sd = blockchain.stateDeliver
 //@   let m = maturing()
@@ -148,6 +148,9 @@ package minter
 //@   # in its coin (at least: other items of the same owner and coin add to it; balances only grow in this loop)
 //@   ensures [C16,C01] released: fetched() && m != nil && 0 <= k && k < len(m.List) && moveOf(m.List[k]) == 0 ==> bal(sd.Accounts, m.List[k].Coin, m.List[k].Address) >= balAtFetch(sd.Accounts, m.List[k].Coin, m.List[k].Address) + m.List[k].Value.val
 //@   ensures [C16,C01] onlygrows: fetched() ==> forall c types.CoinID, a types.Address :: bal(sd.Accounts, c, a) >= balAtFetch(sd.Accounts, c, a)
+//@   # C19: the presence map that calculatePowers and the reward accrual read holds entries of THIS block's votes only: it
+//@   # starts empty and gets at most one entry per vote processed
+//@   loop 0 invariant [C19] thisblock: -1 <= rangeindex && len(blockchain.validatorsStatuses) <= rangeindex + 1
 //@   loop 2 invariant idx: -1 <= rangeindex && (rangeindex < len(frozenFunds.List) || (rangeindex == -1 && len(frozenFunds.List) == 0)) && frozenFunds == m && fetched()
 //@   loop 2 invariant values: forall i int :: 0 <= i && i < len(frozenFunds.List) ==> frozenFunds.List[i].Value != nil && allocated(frozenFunds.List[i].Value) && frozenFunds.List[i].Value.val >= 0
 //@   loop 2 invariant mono: forall c types.CoinID, a types.Address :: bal(blockchain.stateDeliver.Accounts, c, a) >= balAtFetch(blockchain.stateDeliver.Accounts, c, a)
